@@ -1,6 +1,6 @@
 """Confirms a seeded property-breaking change and runs the check against it.
 
-python -m vf.seedtest <dir with patch.diff, demo.py, meta.json> <seed id> [--tier quick] [--no-tests]
+python -m vf.seedtest <dir with patch.diff, demo.py, meta.json> <seed id> [--tier quick] [--no-tests] [--prop Cyy]
 
 Works on a scratch copy of /repo (outside /repo and /verif), never on /repo:
  1. demo.py on the clean copy           -> must exit 0
@@ -37,6 +37,9 @@ def main(argv):
     tier = argv[argv.index('--tier') + 1] if '--tier' in argv else 'quick'
     meta = json.load(open(os.path.join(src, 'meta.json')))
     prop = meta['property']
+    other = argv[argv.index('--prop') + 1] if '--prop' in argv else None
+    if other:       # run another property's check against this change
+        prop = other
     scratch = tempfile.mkdtemp(prefix='vf-seed-')
     out = {'seed_id': sid, 'property': prop}
     try:
@@ -88,6 +91,14 @@ def main(argv):
         out['first_check_missed_it'] = True
     if prev.get('first_check_missed_it'):
         out['first_check_missed_it'] = True
+    if other:
+        rc = out.get('check', {}).get(tier, {}).get('exit')
+        meta.setdefault('other_property_checks', {})[other] = out.get('check')
+        if rc == 1:
+            meta['caught_by_other_property'] = other
+        json.dump(meta, open(os.path.join(d, 'meta.json'), 'w'), indent=1)
+        print(json.dumps(out, indent=1))
+        return
     meta['verified'] = out
     meta['caught_by_quick'] = out.get('check', {}).get('quick', {}).get('exit') == 1
     json.dump(meta, open(os.path.join(d, 'meta.json'), 'w'), indent=1)
